@@ -26,6 +26,35 @@ CHECKS = {
         note=COMMON_NOTE),
 }
 
+CHECKS['C13'] = dict(
+    category='proof',
+    text=("For every documented selector form (row int/label, 'A:1', tuples, one- and two-axis slices with every "
+          "combination of int / label / open ends and optional step, slice+element mixes, lists of up to three "
+          "singles, label-for-integer interchange) the real Slicer.__init__ (and Plate.__getitem__ -> "
+          "PlateSlicer.__init__) is executed symbolically with the plate size, the labeling (an abstract injective "
+          "label list) and every integer in the selector unconstrained; the obligation is: it returns iff all parts "
+          "are inside the plate, and then self.slices equals the documented 0-based slices — numpy basic slicing "
+          "(trusted, T3) turns those into exactly the documented wells in row-major order. Unbounded in plate size, "
+          "labeling and integers; list selectors are proved for lengths 1..3. Bounded stand-ins (labelled, not "
+          "counted): default labels / well names of Plate.__init__ for shapes up to the stated bound; an exhaustive "
+          "native enumeration of selectors on plates up to n x n against a pure-Python reference of the docs."),
+    design_ref='DESIGN.md §7 C13',
+    technique='contract-based deductive verification: ast->z3 VC generation on the real Slicer code over symbolic ints and an abstract label list (LIA)',
+    note=COMMON_NOTE + " Labels are assumed not to contain ':'; numpy basic slicing semantics is trusted (T3).")
+CHECKS['C14'] = dict(
+    category='proof',
+    text=("Meaning: for every unit shape of the grammar (41 quantity shapes; 3200 ratio shapes with and without a "
+          "denominator value; molar/molal shorthand with every prefix; the three percent forms) the real "
+          "parse_quantity / parse_concentration is executed on a string whose numerals are symbolic reals and the "
+          "result is proved equal to the SI denotation; spellings named in the property are proved to denote the same "
+          "triple. Rejection: parse_quantity is verified over ALL strings (z3 string variables, case split on the "
+          "number of blanks): a returning call implies the text is '<float> <unit of the grammar>' and carries its SI "
+          "meaning. parse_concentration's rejection half is a BOUNDED stand-in (token-level enumeration on the real "
+          "code against a grammar reference written from the docs), labelled bounded and not counted as proved."),
+    design_ref='DESIGN.md §7 C14, §8 B-C14-reject',
+    technique='contract-based deductive verification: ast->z3 VC generation with segmented strings (symbolic numerals) and z3 string variables; bounded enumeration stand-in for one clause',
+    note=COMMON_NOTE + " float(text) is modelled by uninterpreted isfloat/floatval on symbolic text; numerals contain no blank, '/' or ':'.")
+
 NOT_YET = "check not built yet in this round (under construction; not claimed)"
 NOT_APPLICABLE = {}
 
